@@ -10,6 +10,7 @@ the plain number exact arithmetic gives.
 import json
 import os
 import re
+import time
 from fractions import Fraction as F
 
 from vlib import Check, RunnerPool, compile_job, driver, log, REPO
@@ -338,23 +339,6 @@ def plain_value(t):
     return x / y, gx
 
 
-def clamp_inverted(t):
-    """some clamp(MIN, VAL, MAX) over plain numbers has MAX < MIN (where the code and CSS differ)."""
-    t = strip(t)
-    if t[0] == "c":
-        if t[1] == "clamp" and len(t[2]) == 3:
-            try:
-                a, b, c = (plain_value(x) for x in t[2])
-                if a[1] == b[1] == c[1] and c[0] < a[0] < b[0]:
-                    return True
-            except NotPlain:
-                pass
-        return any(clamp_inverted(a) for a in t[2])
-    if t[0] == "o":
-        return clamp_inverted(t[2]) or clamp_inverted(t[3])
-    return False
-
-
 # ---------------------------------------------------------------------------------------------
 # environments
 # ---------------------------------------------------------------------------------------------
@@ -446,7 +430,7 @@ def observe(pool, cases, batch=150):
     return res
 
 
-_CHECK = re.compile(r"ok tie=(\d) val=(\S+) defined=(\d+) reprint=(\d) specsame=(\d) spec=(\S+) model= (.*?) impl= (.*)$")
+_CHECK = re.compile(r"ok tie=(\d) val=(\S+) defined=(\d+) reprint=(\d) specsame=(\d) spec=(\S+) css=(\d) strict=(\S+) model= (.*?) impl= (.*)$")
 
 
 def source_of(t):
@@ -496,7 +480,7 @@ def evaluate(ck, pool, trees, envs, label):
         if m == "bad-op" or d == "bad-op":
             ck.cov["unsupported_dropped"] += 1
             continue
-        ck.count(enc, nontrivial=(" o " in " " + enc) or enc.count("c ") >= 2)
+        ck.count(enc, nontrivial=any(strip(a)[0] in ("o", "c") for a in t[2]))
         ck.hist(f"{label}size:{min(size(t), 16)}")
         ck.hist("top:" + t[1])
         base = {"source": src, "tree": enc, "model": m, "impl": list(o)[:3]}
@@ -540,7 +524,7 @@ def evaluate(ck, pool, trees, envs, label):
             disagree(ck, base)
             failures.append(dict(base, why="output not parsed by the calc grammar: " + d[:80], tags=[]))
             continue
-        tie, val, defined, reprint, specsame, spec, model, impl = mm.groups()
+        tie, val, defined, reprint, specsame, spec, cssame, strict, model, impl = mm.groups()
         base["driver"] = d[:400]
         ck.hist("impl:ok:" + ("number" if impl.startswith("n ") else "calculation"))
         ck.hist(f"envs-defined:{defined}")
@@ -554,10 +538,10 @@ def evaluate(ck, pool, trees, envs, label):
         ck.hist("coerced(outside CSS semantics)" if coerced else "in-scope")
         # known deviations are attributed only when grass equals the as-found model and differs from the spec
         tags = []
-        if specsame != "1" and tie == "1":
-            if spec == "incompatible":
+        if tie == "1":
+            if strict == "incompatible":
                 tags.append("D41-unitless-accepted")
-            elif clamp_inverted(t):
+            if cssame != "1":
                 tags.append("D40-clamp-max-below-min")
         # (c) direct: value preserved under every environment (outside Sass's unitless coercion in min/max)
         if not coerced and val != "holds":
@@ -580,7 +564,89 @@ def evaluate(ck, pool, trees, envs, label):
                 ok_plain = True
         if not ok_plain:
             failures.append(dict(base, why=f"known units: expected the plain number {float(v)} (canonical unit of {g})",
-                                 tags=["D40-clamp-max-below-min"] if clamp_inverted(t) else []))
+                                 tags=[x for x in tags if x.startswith("D40")]))
+    return failures
+
+
+def gen_textual(rng):
+    """an argument list containing `#{…}` at parenthesis depth 0: grass takes the whole list as one
+    interpolated string (parse/value.rs:1442 contains_calculation_interpolation), so the expected output
+    is the textual substitution, unsimplified."""
+    g = Gen(rng)
+
+    def operand():
+        x = rng.random()
+        if x < 0.75:
+            n = g.number(rng.choice(["len", "len", "num", "ang", "time"]))
+            return dec(n[1]) + n[2]
+        return f"var(--a{rng.randrange(NATOMS)})"
+
+    def arg():
+        k = rng.choice([1, 2, 2, 3])
+        parts = [operand()]
+        for _ in range(k - 1):
+            parts.append(rng.choice([" + ", " - ", " * ", " / "]))
+            parts.append(operand())
+        return parts
+
+    name = rng.choice(["calc", "calc", "min", "max", "clamp"])
+    nargs = 1 if name == "calc" else (3 if name == "clamp" else rng.choice([1, 2, 3]))
+    args = [arg() for _ in range(nargs)]
+    ai = rng.randrange(nargs)
+    oi = rng.randrange(0, len(args[ai]), 2)
+    inner = args[ai][oi]
+    how = rng.random()
+    decl = ""
+    if how < 0.4:
+        hole = "#{%s}" % inner
+    elif how < 0.7:
+        inner = inner + rng.choice([" + ", " * "]) + operand()
+        hole = '#{"%s"}' % inner
+    else:
+        decl = "$iv: %s; " % inner
+        hole = "#{$iv}"
+    src_args, exp_args = [], []
+    for k, a in enumerate(args):
+        src_args.append("".join(hole if (k == ai and j == oi) else p for j, p in enumerate(a)))
+        exp_args.append("".join(inner if (k == ai and j == oi) else p for j, p in enumerate(a)))
+    return decl, f"{name}({', '.join(src_args)})", f"{name}({', '.join(exp_args)})"
+
+
+def evaluate_textual(ck, pool, n):
+    cases = [gen_textual(ck.rng) for _ in range(n)]
+    sheet = "\n".join("x{i:%d; %sv: %s}" % (i, d, s) for i, (d, s, _) in enumerate(cases))
+    a = pool.map([compile_job(sheet, syntax="scss")], timeout=30)[0]
+    failures = []
+    if a.get("status") != "ok":
+        singles = pool.map([compile_job("x{i:%d; %sv: %s}" % (i, d, s), syntax="scss") for i, (d, s, _) in enumerate(cases)], timeout=15)
+        found = {}
+        for i, r in enumerate(singles):
+            if r.get("status") == "ok":
+                m = _RULE.search(r["css"])
+                found[i] = m.group(2) if m else None
+            else:
+                found[i] = ("!", r.get("status"), (r.get("err") or {}).get("message") or r.get("panic"))
+    else:
+        found = {int(m.group(1)): m.group(2) for m in _RULE.finditer(a["css"])}
+    for i, (d, src, exp) in enumerate(cases):
+        got = found.get(i)
+        ck.count("T " + d + src, nontrivial=True)
+        ck.hist("interpolated-argument-list")
+        base = {"source": "x{%sv: %s}" % (d, src), "tree": "textual", "model": exp, "impl": [str(got)]}
+        if isinstance(got, tuple):
+            ck.hist("interpolated:impl:" + str(got[1]))
+            if got[1] != "err":
+                failures.append(dict(base, why="implementation " + str(got[1]), tags=[]))
+            else:
+                disagree(ck, base)
+            continue
+        try:
+            same = got is not None and lex(got) == lex(exp)
+        except Unreadable:
+            same = False
+        if not same:
+            disagree(ck, base)
+            failures.append(dict(base, why="interpolated argument list is not the textual substitution", tags=[]))
     return failures
 
 
@@ -631,15 +697,18 @@ def run(tier, seed):
                       "printed numbers carry an absolute error <= 6e-11 + 1e-12*|x| (10 fractional digits, f64 arithmetic)",
                       "unit environments: positive rationals for px, deg, s (scales of the convertible kinds), em, rem, %, vw; "
                       "opaque operands get arbitrary non-zero rationals"]
+    t0 = time.time()
     ck.do_prove(cores=("calc",))
+    ck.notes.append(f"proof step (lake build incl. lock wait, scan, audit): {time.time() - t0:.1f}s")
     if not ck.do_build_runner():
         ck.unproved("correspondence-broken", {"why": "runner does not build against /repo", "error": getattr(ck, "build_error", "")})
         return ck.finish()
+    t1 = time.time()
     pool = RunnerPool()
     table_tie(ck)
     envs = make_envs(ck.rng, 6)
     g = Gen(ck.rng)
-    n = 6000 if tier == "quick" else 150000
+    n = 6000 if tier == "quick" else 80000
     trees = list(CORPUS)
     for k in range(n):
         trees.append(g.top(ck.rng.choice([1, 2, 2, 3, 3, 4])))
@@ -647,10 +716,12 @@ def run(tier, seed):
     CH = 20000
     for off in range(0, len(trees), CH):
         failures += evaluate(ck, pool, trees[off:off + CH], envs, "")
+    failures += evaluate_textual(ck, pool, 200 if tier == "quick" else 3000)
     if (not ck.proof["ok"] or ck.cov["model_disagreements"]) and not [f for f in failures if not f["tags"]] and tier == "quick":
         log("[C16] proof or correspondence broken: enlarging the search")
         more = [g.top(ck.rng.choice([2, 3, 4])) for _ in range(30000)]
         failures += evaluate(ck, pool, more, envs, "x")
+    ck.notes.append(f"correspondence (cases, after the runner build): {time.time() - t1:.1f}s")
     failures.sort(key=lambda f: len(f["tree"]))
     reported = 0
     for f in failures:
